@@ -76,7 +76,7 @@ let () =
         let (e, d) = be_op (nat_of_int k) (zi x) in
         Printf.printf "BE %s %s %s\n" (hex_of_bytes e) (si d) (si (to_signed (nat_of_int k) d))
     | ["TZB"; hex] ->
-        (match tzif_parse (unhex hex) with
+        (match tzif_parse_g (unhex hex) with
          | TzOk tb -> Printf.printf "tzif ok %s\n" (show_table tb)
          | TzFail -> print_string "tzif fail\n"
          | TzUndefined -> print_string "tzif undefined\n")
@@ -94,6 +94,11 @@ let () =
     | ["IPP"; port; lo; v6; n6] ->
         let sa = inet_port_only (zi port) (lo = "1") (v6 = "1") in
         Printf.printf "IPP %s\n" (show_sa (if n6 = "-" then "" else str_of_bytes (unhex n6)) sa)
+    | ["N6"; hex] -> Printf.printf "N6 %s\n" (str_of_bytes (ntop6 (unhex hex)))
+    | ["P6"; texthex] ->
+        (match pton6 (unhex texthex) with
+         | None -> print_string "P6 none\n"
+         | Some a -> Printf.printf "P6 %s\n" (hex_of_bytes a))
     | ["P4"; texthex] ->
         (match pton4 (unhex texthex) with
          | None -> print_string "P4 none\n"
